@@ -223,10 +223,11 @@ func runC14(tier string) int {
 	r.Set("movement_element_kinds", len(elems))
 	c14Marts(r, tier, sw)
 	c14Scaled(r, tier)
+	c14MassFile(r, tier)
 	r.Assume("multipliers with a leading zero are not generated (octal vs decimal is not specified)",
 		"expected expansion is computed by the generator: N copies in order, cut after the first step_end, exactly one step_end last")
 	return r.Finish(r.Get("evaluations"), r.Get("nontrivial"),
-		"every movement list of <= L elements over 42 element kinds (3 steps x 12 multipliers incl. 0, negative, 9999, 10000, hex and a 20-digit number; 6 poryswitch-selected segments in colon, brace and nested forms) x statement / moves() form (and two moves() in one script that differ only in the length of the last run) x 3 separator styles; every mart list of <= M items over plain items, ITEM_NONE, constants (one equal to ITEM_NONE) and poryswitch segments; plus 'step * N' for every N in 1..10005, decimal and hex, statement and moves(); plus lists of K different steps and marts of K items for every K up to the bound in the coverage; non-trivial = a multiplier > 1 or a multi-step segment is present")
+		"every movement list of <= L elements over 42 element kinds (3 steps x 12 multipliers incl. 0, negative, 9999, 10000, hex and a 20-digit number; 6 poryswitch-selected segments in colon, brace and nested forms) x statement / moves() form (and two moves() in one script that differ only in the length of the last run) x 3 separator styles; every mart list of <= M items over plain items, ITEM_NONE, constants (one equal to ITEM_NONE) and poryswitch segments; plus 'step * N' for every N in 1..10005, decimal and hex, statement and moves(); plus lists of K different steps and marts of K items for every K up to the bound in the coverage; plus one script holding every moves() list of 6 (thorough 7) steps over 8 names; non-trivial = a multiplier > 1 or a multi-step segment is present")
 }
 
 // c14Scaled: the size dimension. Every multiplier value from 1 to 10005,
@@ -329,6 +330,84 @@ func c14Scaled(r *harness.Run, tier string) {
 		r.NotExhaustive("scaled movement / mart lists not completed")
 	}
 	r.Set("long_list_max_elements", maxK)
+}
+
+// c14MassFile: one script with every moves() list of exactly L steps over 8 step names (8^L lists, all different).
+// Every command must refer to a block of its own with exactly its steps. A lossy key for "the same movement" (a hash,
+// a joined or truncated spelling) meets collisions in a set of this size.
+func c14MassFile(r *harness.Run, tier string) {
+	L := 6
+	if tier == "thorough" {
+		L = 7
+	}
+	names := []string{"walk_up", "walk_down", "walk_left", "walk_right", "face_up", "face_down", "face_left", "face_right"}
+	n := 1
+	for i := 0; i < L; i++ {
+		n *= len(names)
+	}
+	if r.Expired() {
+		r.NotExhaustive("mass movement file not run")
+		return
+	}
+	var sb strings.Builder
+	sb.WriteString("script S {\n")
+	stepsOf := func(i int) []string {
+		st := make([]string, L)
+		for k := range st {
+			st[k] = names[i%len(names)]
+			i /= len(names)
+		}
+		return st
+	}
+	for i := 0; i < n; i++ {
+		fmt.Fprintf(&sb, "\tam(%d, moves(%s))\n", i, strings.Join(stepsOf(i), " "))
+	}
+	sb.WriteString("}\n")
+	res := comp.Compile(sb.String(), comp.Opts{Optimize: true})
+	r.Add("evaluations", 1)
+	r.Add("nontrivial", 1)
+	r.Set("mass_file_moves_lists", n)
+	if res.Err != nil || res.Panic != "" {
+		r.Report(harness.Violation{Sig: "C14:mass:rejected", Summary: fmt.Sprintf("script with %d moves() lists rejected: %v %s", n, res.Err, firstLine(res.Panic)), Replay: map[string]interface{}{"lists": n}})
+		return
+	}
+	blocks := map[string][]string{}
+	labelOf := make([]string, n)
+	cur := ""
+	for _, line := range strings.Split(res.Out, "\n") {
+		switch {
+		case line == "":
+			cur = ""
+		case line[0] != '\t':
+			cur = strings.TrimRight(line, ":")
+			if _, dup := blocks[cur]; dup {
+				r.Report(harness.Violation{Sig: "C14:mass:label-twice", Summary: "label " + cur + " defined twice in the mass file", Replay: map[string]interface{}{"lists": n, "label": cur}})
+			}
+			blocks[cur] = []string{}
+		case strings.HasPrefix(line, "\tam "):
+			var i int
+			var lab string
+			if _, err := fmt.Sscanf(line, "\tam %d, %s", &i, &lab); err == nil && i >= 0 && i < n {
+				labelOf[i] = lab
+			}
+		case cur != "" && cur != "S":
+			blocks[cur] = append(blocks[cur], strings.TrimPrefix(line, "\t"))
+		}
+	}
+	bad, first := 0, -1
+	for i := 0; i < n; i++ {
+		want := append(stepsOf(i), "step_end")
+		got := blocks[labelOf[i]]
+		if labelOf[i] != fmt.Sprintf("S_Movement_%d", i) || strings.Join(got, " ") != strings.Join(want, " ") {
+			bad++
+			if first < 0 {
+				first = i
+			}
+		}
+	}
+	if bad > 0 {
+		r.Report(harness.Violation{Sig: "C14:mass:block-differs", Summary: fmt.Sprintf("script with %d different moves() lists: %d commands do not refer to a block of their own steps, e.g. list %d %v -> %s %v", n, bad, first, stepsOf(first), labelOf[first], blocks[labelOf[first]]), Replay: map[string]interface{}{"lists": n, "first_bad_index": first, "steps": stepsOf(first), "label": labelOf[first], "generator": "c14MassFile"}})
+	}
 }
 
 func c14Marts(r *harness.Run, tier string, sw map[string]string) {
